@@ -539,3 +539,27 @@ func (w *World) printDatatypes(sb *strings.Builder) {
 	}
 	sb.WriteString("))\n")
 }
+
+// objectFacts: a ugo.Object returned by a call is nil or a well-formed
+// object: it never holds a typed nil pointer of one of the module's own object
+// types (standing assumption, listed in the evidence).
+func (w *World) objectFacts(v *Term, t types.Type, alloc *Term) *Term {
+	ts := w.ts
+	nt, ok := t.(*types.Named)
+	if !ok || nt.Obj().Name() != "Object" || nt.Obj().Pkg() == nil || nt.Obj().Pkg().Path() != "github.com/ozanh/ugo" {
+		return ts.True()
+	}
+	u, ok := t.Underlying().(*types.Interface)
+	if !ok {
+		return ts.True()
+	}
+	var fs []*Term
+	for _, k := range w.boxOrder {
+		b := w.boxes[k]
+		if _, isPtr := b.typ.Underlying().(*types.Pointer); isPtr && types.Implements(b.typ, u) {
+			p := w.unboxOrZero(b.typ, v)
+			fs = append(fs, ts.Implies(w.isBox(b.typ, v), ts.And(w.intLt(ts.IntLit(0), p), w.intLe(p, alloc))))
+		}
+	}
+	return ts.And(fs...)
+}
